@@ -462,3 +462,21 @@ def _emit_const(m, c, assoc, h, st):
     lines.append('// @@END %s' % vname)
     st['R2.contracts_inserted'] += 1
     return ctext, '\n'.join(lines), vname
+
+
+def find_assoc_type(items, self_ident, trait_ident, name):
+    """Tokens of `type <name> = ..;` in the generated `impl <trait_ident> for <self_ident>` (R11 applied), or None."""
+    st = Counter()
+    for it in items:
+        if it.kind != 'impl':
+            continue
+        h = rtok.parse_impl(it)
+        if h.trait is None or trait_key(h.trait) != trait_ident:
+            continue
+        if (rtok.path_last_ident(h.self_ty) or '') != self_ident:
+            continue
+        for m in rtok.split_items(h.body.items):
+            if m.kind == 'type' and m.name == name:
+                eq = [i for i, t in enumerate(m.toks) if t.is_p('=')][0]
+                return r11_strum_path(m.toks[eq + 1:-1], st)
+    return None
